@@ -202,7 +202,7 @@ class Domain(
         dimension_coordinates = self.dimension_coordinates(todict=True)
         for axis_cid, axis in sorted(self.domain_axes(todict=True).items()):
             for cid, dim in dimension_coordinates.items():
-                if construct_data_axes[cid] == (axis_cid,):
+                if construct_data_axes.get(cid) == (axis_cid,):
                     name = dim.identity(default=f"key%{0}")
                     y = f"{name}({axis.get_size()})"
                     if y != axis_names[axis_cid]:
@@ -221,7 +221,7 @@ class Domain(
 
         # Auxiliary coordinates
         x = [
-            _print_item(self, cid, v, construct_data_axes[cid])
+            _print_item(self, cid, v, construct_data_axes.get(cid, ()))
             for cid, v in sorted(
                 self.auxiliary_coordinates(todict=True).items()
             )
@@ -232,7 +232,7 @@ class Domain(
 
         # Cell measures
         x = [
-            _print_item(self, cid, v, construct_data_axes[cid])
+            _print_item(self, cid, v, construct_data_axes.get(cid, ()))
             for cid, v in sorted(self.cell_measures(todict=True).items())
         ]
         if x:
@@ -254,7 +254,7 @@ class Domain(
 
         # Domain ancillary variables
         x = [
-            _print_item(self, cid, anc, construct_data_axes[cid])
+            _print_item(self, cid, anc, construct_data_axes.get(cid, ()))
             for cid, anc in sorted(
                 self.domain_ancillaries(todict=True).items()
             )
@@ -265,7 +265,7 @@ class Domain(
 
         # Domain topologies
         x = [
-            _print_item(self, cid, v, construct_data_axes[cid])
+            _print_item(self, cid, v, construct_data_axes.get(cid, ()))
             for cid, v in sorted(self.domain_topologies(todict=True).items())
         ]
         if x:
@@ -274,7 +274,7 @@ class Domain(
 
         # Cell connectivities
         x = [
-            _print_item(self, cid, v, construct_data_axes[cid])
+            _print_item(self, cid, v, construct_data_axes.get(cid, ()))
             for cid, v in sorted(self.cell_connectivities(todict=True).items())
         ]
         if x:
@@ -661,8 +661,9 @@ class Domain(
                 )
             )
             out.append(
-                f"{name}.set_construct("
-                f"c, axes={self.get_data_axes(key)}, key={key!r}, copy=False)"
+                f"{name}.set_construct(c, "
+                f"axes={self.get_data_axes(key, default=None)}, "
+                f"key={key!r}, copy=False)"
             )
 
         # Coordinate reference constructs
@@ -770,7 +771,7 @@ class Domain(
                     display=False,
                     _level=_level,
                     _title=f"Dimension coordinate: {construct_name[cid]}",
-                    _axes=construct_data_axes[cid],
+                    _axes=construct_data_axes.get(cid),
                     _axis_names=axis_to_name,
                 )
             )
@@ -784,7 +785,7 @@ class Domain(
                     display=False,
                     _level=_level,
                     _title=f"Auxiliary coordinate: {construct_name[cid]}",
-                    _axes=construct_data_axes[cid],
+                    _axes=construct_data_axes.get(cid),
                     _axis_names=axis_to_name,
                 )
             )
@@ -797,7 +798,7 @@ class Domain(
                     display=False,
                     _level=_level,
                     _title=f"Domain ancillary: {construct_name[cid]}",
-                    _axes=construct_data_axes[cid],
+                    _axes=construct_data_axes.get(cid),
                     _axis_names=axis_to_name,
                 )
             )
@@ -827,7 +828,7 @@ class Domain(
                     _key=cid,
                     _level=_level,
                     _title=f"Cell measure: {construct_name[cid]}",
-                    _axes=construct_data_axes[cid],
+                    _axes=construct_data_axes.get(cid),
                     _axis_names=axis_to_name,
                 )
             )
@@ -841,7 +842,7 @@ class Domain(
                     _key=cid,
                     _level=_level,
                     _title=f"Domain topology: {construct_name[cid]}",
-                    _axes=construct_data_axes[cid],
+                    _axes=construct_data_axes.get(cid),
                     _axis_names=axis_to_name,
                 )
             )
@@ -857,7 +858,7 @@ class Domain(
                     _key=cid,
                     _level=_level,
                     _title=f"Cell connectivity: {construct_name[cid]}",
-                    _axes=construct_data_axes[cid],
+                    _axes=construct_data_axes.get(cid),
                     _axis_names=axis_to_name,
                 )
             )
